@@ -22,6 +22,7 @@ EXPLANATION = (
     "ever handed to the type-resolving functions, never inspected, so scoping and declaration order cannot depend on it; (SAME-NODE) the parser produces the same statement kind with and "
     "without an annotation (only the `ty` field differs) and the same binder kind for `::`/`: T :` and `:=`/`: T =`."
     ' (ANNOTATION-PERMISSIVE) a written `fn` type resolves to the wildcard purity, so a correct `fn` annotation on a pure function value is not rejected.'
+    ' (INFERENCE) no arm of the checker answers a still-unknown type with an error; (SAME-NODE return-type probe) whether a return type follows `->` is decided independently of the newline mode (both known findings).'
 )
 UNDECIDED = "the acceptance clause: that erasing a correct annotation keeps the program accepted is a completeness property of inference."
 
@@ -43,6 +44,8 @@ def run(F, rep, tier):
     same_node(F, rep)
     import c04
     c04.annotation_purity(F, rep, "ANNOTATION-PERMISSIVE")
+    unknown_is_deferred(F, rep)
+    erased_return_type(F, rep)
 
 
 def no_type_flow(F, rep):
@@ -241,3 +244,59 @@ def same_node(F, rep):
     t = pp(fn_body(fx))
     rep.ob("SAME-NODE", "function|unannotated-params", "TypeKind::Resolved(Type::Unknown)" in t,
            "a parameter without annotation gets the Unknown type (inferred)", fx["sp"])
+
+
+def unknown_is_deferred(F, rep):
+    """erasing a correct annotation leaves the checker with a type it does not know *yet*; the program stays accepted
+    only if every use of a not-yet-known type is deferred (recorded as a constraint, or fixed by unification).  An arm
+    that answers `Type::Unknown` with an error makes acceptance depend on the annotation."""
+    import tc
+    from hir import pat_alternatives, pat_variant, pat_strip
+    n = 0
+    for fn in F.fns_in("sylt_compiler::typechecker::"):
+        k = 0
+        for m in nodes(fn_body(fn), "Match"):
+            for a in m["arms"]:
+                for alt in pat_alternatives(a["pat"]):
+                    p = pat_strip(alt)
+                    subs = p["pats"] if p.get("k") == "Tuple" else [alt]
+                    if any((pat_variant(x) or "").endswith("ty::Type::Unknown") for x in subs):
+                        n += 1
+                        if tc.is_err_value(a["body"]):
+                            k += 1
+                            rep.ob("INFERENCE", "%s|unknown=>error#%d" % (last(fn["_path"], 2), k), False,
+                                   "%s turns a type that is still Unknown into the error `%s`; every other use of an unknown type "
+                                   "(field access, index, case, operators) is deferred.  `call :: fn p: A -> int do p.f(1) end` is "
+                                   "accepted and becomes `Unknown types cannot be called` when the correct annotation `: A` is removed"
+                                   % (last(fn["_path"], 2), tc.err_kind(a["body"])), line_of(a))
+    rep.ob("INFERENCE", "census", True, "%d arms of the checker handle Type::Unknown" % n, sites=n)
+    rep.floor("INFERENCE", "arms on Type::Unknown", n, 15)
+
+
+def erased_return_type(F, rep):
+    """`fn x: int -> T` and `fn x: int ->` + line break + body: whether a return type follows the arrow is decided by
+    trying parse_type on the next token.  Inside brackets line breaks are skipped, so the next token is the first token of
+    the body - a blob literal, `Color.Red`, `nil` - which parses as a type: the erased form only works outside brackets.
+    The probe has to look at the raw token after the arrow (newline skipping off)."""
+    fn = F.fn("sylt_parser::expression::function")
+    rep.analysed(fn)
+    probe = None
+    for n, parents in walk(fn_body(fn)):
+        if n.get("k") == "Call" and callee(n) == "sylt_parser::parse_type" and any(p.get("k") == "LetCond" for p in parents[-3:]):
+            probe = (n, parents)
+    if probe is None:
+        rep.anchor_missing("speculative parse_type after `->` in expression::function")
+        return
+    n, parents = probe
+    arg = peel(n["args"][0])
+    raw = False
+    fl = Flow(fn, fn_body(fn))
+    src = fl.trace(arg) if arg.get("k") == "Path" else arg
+    for c in nodes(src, "MethodCall"):
+        if c["m"] == "push_skip_newlines" and peel(c["args"][0]).get("v") is False:
+            raw = True
+    rep.ob("SAME-NODE", "function|return-type-probe-ignores-layout-mode", raw,
+           "the probe for a return type after `->` looks at the raw next token" if raw else
+           "the probe for a return type after `->` runs in the surrounding newline mode: inside ( ), [ ], call arguments or a blob "
+           "literal the first token of the body on the next line is taken for the return type, so erasing `-> A` from "
+           "`(fn x: int -> A⏎ A { a: x }⏎end)` is a syntax error while the same lambda outside brackets is fine", line_of(n))
